@@ -1027,6 +1027,26 @@ func (g *Gen) opGCBurst(conns []*Client) {
 	if p == r {
 		return
 	}
+	// first, sometimes, a completed get of some resource: a get leaves nothing
+	// behind, also not in the counts of the children it shares with held trees
+	if rapid.IntRange(0, 2).Draw(g.t, "gcget") == 0 {
+		q := g.sample("gcgetrid", g.rids)
+		if c.Ref.Direct[q] == 0 && !strings.Contains(q, "{") {
+			g.w.Exec(Op{K: "creq", C: c.Idx, ID: g.nextID(c), M: "get." + q})
+			for i := 0; i < 12; i++ {
+				pend := g.w.PendingSorted()
+				if len(pend) == 0 {
+					break
+				}
+				pv := pend[0]
+				op := Op{K: "ans", S: pv.P.Subject, Q: pv.P.Query, A: actorEnc(pv.Actor), N: pv.Ord, O: "ok"}
+				if strings.HasPrefix(pv.P.Subject, "access.") {
+					op.P = `{"get":true,"call":"*"}`
+				}
+				g.w.Exec(op)
+			}
+		}
+	}
 	g.w.Exec(Op{K: "creq", C: c.Idx, ID: g.nextID(c), M: "subscribe." + p})
 	pname, pq := g.w.expandRID(c, p)
 	for _, subj := range []string{"access." + pname, "get." + pname} {
